@@ -212,6 +212,29 @@ def test_not(sigma_simple_detections):
     )
 
 
+def test_identifier_starting_with_operator_name():
+    detections = SigmaDetections.from_dict(
+        {
+            "notepad": {"field": "val1"},
+            "android": {"field": "val2"},
+            "oracle": {"field": "val3"},
+            "not-x": {"field": "val4"},
+            "condition": "notepad and android or not oracle and not-x",
+        }
+    )
+    assert detections.parsed_condition[0].parse(False) == ConditionOR(
+        [
+            ConditionAND([ConditionIdentifier(["notepad"]), ConditionIdentifier(["android"])]),
+            ConditionAND(
+                [
+                    ConditionNOT([ConditionIdentifier(["oracle"])]),
+                    ConditionIdentifier(["not-x"]),
+                ]
+            ),
+        ]
+    )
+
+
 def test_3or(sigma_simple_detections):
     assert SigmaCondition(
         "detection1 or detection2 or detection3", sigma_simple_detections
